@@ -562,6 +562,37 @@ def run(ctx):
             ok = r.truth(GRA) is True
             ctx.ob(R12, sfr.qual, "sleeps only for a positive Retry-After", ok, "" if ok else "sleeps although get_retry_after() returned nothing/zero", witness=r.witness(), node=sfr.node)
     ctx.sites(R12, n12, 1, "sleeping rows of sleep_for_retry")
+    # ... and only for the statuses whose Retry-After the policy honours (413 / 429 / 503): some function on the way from sleep() to
+    # time.sleep must have decided `status in RETRY_AFTER_STATUS_CODES` on the sleeping row
+    from ..terms import destruct as _d12
+    RA = None
+    try:
+        RA = set(fold.need(RETRY.rsplit(".", 1)[0], "Retry.RETRY_AFTER_STATUS_CODES"))
+    except Exception:
+        try:
+            c_, st_ = m.find_class_attr(RETRY, "RETRY_AFTER_STATUS_CODES")
+            RA = set(ast.literal_eval(st_.value.args[0] if isinstance(st_.value, ast.Call) else st_.value))
+        except Exception:
+            RA = {413, 429, 503}
+
+    def status_gated(r):
+        for k_, v_ in r.st.ts.items():
+            if isinstance(k_, tuple) and len(k_) == 4 and k_[0] == "cmp" and k_[2] == "in" and v_ is True and "status" in str(k_[1]):
+                o_, val_ = _d12(str(k_[3]))
+                if o_ == "const" and isinstance(val_, (set, frozenset, tuple, list)) and set(val_) <= RA:
+                    return True
+                if "RETRY_AFTER_STATUS_CODES" in str(k_[3]):
+                    return True
+        return False
+    chain = [fi_ for fi_ in (sl, sfr, m.method(RETRY, "get_retry_after")) if fi_ is not None]
+    gated = False
+    for fi_ in chain:
+        for r in sleep_rows(fi_):
+            if (r.events("sleep") or any(e_[1] in ("self.sleep_for_retry", "self.get_retry_after", "self.parse_retry_after") for e_ in r.events("call"))) and status_gated(r):
+                gated = True
+    ctx.ob(R12, sfr.qual, "the server's Retry-After is slept only for the statuses it is honoured for (413, 429, 503)", gated,
+           "" if gated else "no function between sleep() and time.sleep tests the response status: a Retry-After on any retried response (a forcelisted 500, a followed 3xx) is slept as given, without the backoff_max clamp",
+           node=sfr.node)
 
 
 def rule_r8(ctx):
